@@ -48,22 +48,22 @@ type Mismatch struct {
 }
 
 type Report struct {
-	Scenario     string         `json:"scenario"`
-	Seed         uint64         `json:"seed"`
-	Configs      []string       `json:"configs"`
-	Programs     int            `json:"programs"`
-	Evaluations  int            `json:"evaluations"`
-	Distinct     int            `json:"distinct_nontrivial"`
-	Rule         string         `json:"rule"`
-	OpKinds      map[string]int `json:"op_kinds"`
-	RespKinds    map[string]int `json:"resp_kinds"`
-	Extra        map[string]int `json:"extra,omitempty"`
-	Samples      []string       `json:"samples"`
-	Mismatches   []Mismatch     `json:"mismatches"`
-	Exhaustive   bool           `json:"exhaustive"`
-	WallS        float64        `json:"wall_s"`
-	ModelErrors  []string       `json:"model_errors,omitempty"`
-	Hypothesis   []string       `json:"hypothesis_failures,omitempty"`
+	Scenario    string         `json:"scenario"`
+	Seed        uint64         `json:"seed"`
+	Configs     []string       `json:"configs"`
+	Programs    int            `json:"programs"`
+	Evaluations int            `json:"evaluations"`
+	Distinct    int            `json:"distinct_nontrivial"`
+	Rule        string         `json:"rule"`
+	OpKinds     map[string]int `json:"op_kinds"`
+	RespKinds   map[string]int `json:"resp_kinds"`
+	Extra       map[string]int `json:"extra,omitempty"`
+	Samples     []string       `json:"samples"`
+	Mismatches  []Mismatch     `json:"mismatches"`
+	Exhaustive  bool           `json:"exhaustive"`
+	WallS       float64        `json:"wall_s"`
+	ModelErrors []string       `json:"model_errors,omitempty"`
+	Hypothesis  []string       `json:"hypothesis_failures,omitempty"`
 }
 
 func firstTok(s string, n int) string {
